@@ -37,12 +37,16 @@ inductive Site
   | additionalNames     -- individual_additional_names.go: Names()[1:]
   | surnameLink         -- surname_link.go: surname[0]
   | startsWith          -- html/util.go surnameStartsWith: lowerName[0]
+  | eventDate           -- html/event_date.go: c.dates[0]
+  | eventDates          -- html/individual_dates.go: births[0] / baptisms[0] / deaths[0] / burials[0]
+  | placePage           -- html/place_page.go, publish.go: field of placesMap[key] (nil when absent)
 deriving DecidableEq, Repr, Inhabited
 
 def Site.name : Site → String
   | .valueToPointer => "valueToPointer" | .husband => "husband" | .wife => "wife" | .child => "child"
   | .childNodes => "childNodes" | .header => "header" | .page => "page" | .nameAndSex => "nameAndSex"
   | .additionalNames => "additionalNames" | .surnameLink => "surnameLink" | .startsWith => "startsWith"
+  | .eventDate => "eventDate" | .eventDates => "eventDates" | .placePage => "placePage"
 
 /-- result of a Go call: a value or a panic at a site -/
 inductive Res (α : Type) where
@@ -495,6 +499,32 @@ def individualPage (fl : Flags) (showIndividuals : Bool) (letters : List UInt8) 
   let _ ← primaryOr fl.nameAndSexGuard .nameAndSex indi
   let extra ← additionalNames fl.additionalNamesGuard (names indi)
   pure extra.length
+
+/-- `EventDate.WriteHTMLTo`: `c.dates[0]` after the `IsBlank` (no dates) check -/
+def eventDate {α} (dates : List α) : Res (Option α) :=
+  if dates.isEmpty then .ok none else first .eventDate dates >>= fun d => pure (some d)
+
+/-- one `switch` of `IndividualDates.EventDates`: the first primary event (`births[0]`), else the
+    first fallback event (`baptisms[0]`), each under its `len(…) > 0` case -/
+def pickEvent {α} (primary fallback : List α) : Res (Option α) :=
+  if primary.length > 0 then first .eventDates primary >>= fun e => pure (some e)
+  else if fallback.length > 0 then first .eventDates fallback >>= fun e => pure (some e)
+  else .ok none
+
+/-- `IndividualDates.EventDates`: birth-or-baptism, then death-or-burial -/
+def eventDates {α} (births baptisms deaths burials : List α) : Res (List α) := do
+  let b ← pickEvent births baptisms
+  let d ← pickEvent deaths burials
+  pure (b.toList ++ d.toList)
+
+/-- `c.placesMap[key]` followed by a field access: a nil-pointer panic when the key is absent -/
+def lookupPlace {α} (m : List (Str × α)) (key : Str) : Res α :=
+  match m.find? (fun e => e.1 == key) with
+  | some e => .ok e.2
+  | none => .panic .placePage
+
+/-- `sendPlaceFiles`: one place page per key *of the map the pages look the key up in* -/
+def placePages {α} (m : List (Str × α)) : Res (List α) := mapRes (lookupPlace m) (m.map (·.1))
 
 /-! ## the warnings walk -/
 
